@@ -3,12 +3,12 @@ ENGINES = [
      "kind_free_text": "Python stdlib driver: seeded command histories sent over TCP to private hooks-on ferrous children; every reply and canonical dumps compared with a small sequential Redis model, or with a twin server / a restarted server / a replayed log"},
     {"name": "E2 hooked-state invariants", "path": "fv/diff.py (VERIF CHECK|EXPIRY|BLOCKED)", "serves_properties": ["C02","C03","C04","C13","C15","C16"],
      "kind_free_text": "feature-guarded VERIF admin command walking skip lists, streams, pending lists, expiry index, blocking registry under their own locks at quiescent points"},
-    {"name": "E3 sync points and fail points", "path": "/repo/src/verif.rs (VERIF SWEEPER|RDB)", "serves_properties": ["C02","C10"],
-     "kind_free_text": "one-shot holds that park the sweeper / save thread between two of its steps, injected I/O errors and process aborts at the n-th step of a save"},
+    {"name": "E3 sync points and fail points", "path": "/repo/src/verif.rs (VERIF SWEEPER|RDB), fv/checks/c10.py (os_faults)", "serves_properties": ["C02","C10"],
+     "kind_free_text": "one-shot holds that park the sweeper / save thread between two of its steps, injected I/O errors and process aborts at the n-th step of a save; OS-level write faults through RLIMIT_FSIZE (EFBIG or SIGXFSZ kill at a chosen file offset)"},
     {"name": "E4 in-process Rust harness", "path": "rs/", "serves_properties": ["C04","C10","C20"],
      "kind_free_text": "binaries linked against the repo's library (codec, RDB loader, skip list) with a counting global allocator, catch_unwind, child processes for abort-class failures"},
-    {"name": "E5 sanitizers / alternate builds", "path": "fv/rsbin.py, fv/server.py", "serves_properties": ["C04","C06","C20"],
-     "kind_free_text": "Miri (cargo +nightly miri run) on the in-process harness in thorough; release-profile server for overflow/debug_assert-dependent behaviour"},
+    {"name": "E5 sanitizers / alternate builds", "path": "fv/sanitize.py, fv/checks/tsan_soup.py, fv/rsbin.py", "serves_properties": ["C01","C02","C03","C04","C06","C10","C12","C15","C16","C20"],
+     "kind_free_text": "thorough tier: AddressSanitizer build of the server under the model-differential workloads and the C06 enumeration, ThreadSanitizer build (-Zbuild-std) under expire / save workloads, Miri on the in-process harness, valgrind memcheck under the hostile Lua corpus, release-profile server; report blocks are counted from the child's log"},
 ]
 NOTES = ("Runtime monitoring only: every verdict is 'held on the executions described in evidence/<id>.json'. "
          "KNOWN_FINDINGS.txt lists repaired (fixed:) and tolerated (known:) genuine defects. See DESIGN.md.")
@@ -16,12 +16,12 @@ NOTES = ("Runtime monitoring only: every verdict is 'held on the executions desc
 add("C01", "exploration",
     "10^6-scale lock-step differential run of generated string/key-space histories against a sequential Redis model, with per-key probes after refused commands and full dumps; right level because the quantifier is over unbounded command sequences and argument values: a total oracle over stratified random histories plus boundary pools is what runtime monitoring can offer",
     "trusted: the reference model (fv/model.py), the RESP client, error replies compared as a class only; don't-care forms (fv/DONTCARE.md) not generated",
-    "reference-model differential monitor over recorded client histories", "E1", "DESIGN.md 7/C01")
+    "reference-model differential monitor over recorded client histories (+ AddressSanitizer pass in thorough)", "E1+E5", "DESIGN.md 7/C01")
 
 add("C03", "exploration",
     "10^6-scale differential run of generated list/set/hash histories against the sequential model (all index forms, duplicates, multi-key algebra with missing/wrong-type operands, admissibility of random picks), probes after refusals, invariant walk (no empty collection kept) and dump per history",
     "trusted: reference model, RESP client; SINTER with a missing operand before a wrong-type one and non-canonical integers are don't-cares",
-    "reference-model differential monitor over recorded client histories", "E1", "DESIGN.md 7/C03")
+    "reference-model differential monitor over recorded client histories (+ AddressSanitizer pass in thorough)", "E1+E5", "DESIGN.md 7/C03")
 add("C04", "exploration",
     "differential run of sorted-set histories with colliding scores against a (score, member) ordered model plus the skip-list structural walker (all levels, index agreement, no NaN) every 8 commands; in-process skip-list harness under Miri/ASan in thorough",
     "trusted: reference model, float comparison of scores; walker reads the structure under its own lock at quiescent points",
@@ -37,7 +37,7 @@ add("C14", "exploration",
 add("C15", "exploration",
     "differential run of stream histories (auto/explicit IDs at all edges, XDEL/XTRIM, range reads with bounds placed around stored IDs) against a sorted-map model with max-ever last-id; stream walker every 10 commands",
     "trusted: reference model; only complete ms-seq IDs are sent; field order inside an entry is not compared",
-    "reference-model differential monitor + hooked stream invariant walker", "E1+E2", "DESIGN.md 7/C15")
+    "reference-model differential monitor + hooked stream invariant walker (+ AddressSanitizer pass in thorough)", "E1+E2+E5", "DESIGN.md 7/C15")
 
 add("C07", "exploration",
     "sequential transaction histories compared slot by slot with the model (DISCARD, nested MULTI, disconnects before/after EXEC, interleaved observer) plus 20 s of free-running contention with uniquely valued writes and linear-time visibility oracles",
@@ -59,7 +59,7 @@ add("C19", "exploration",
 add("C02", "exploration",
     "timed histories judged by an interval model built from client-side monotonic brackets (decisive-before / decisive-after / don't-care), every data type and every command family probing a dead or live key; the sweeper parked between its collect and delete phase while the key is re-created / renamed / persisted (sync point); expiry index vs stored deadline agreement at quiescent points followed to the client boundary",
     "trusted: CLOCK_MONOTONIC on one host for client and server, the bracket arithmetic, the reference model; probes that fall inside the ambiguity bracket are not judged (counted as don't-care in evidence)",
-    "timed history monitor with interval oracle + sync-point injected sweeper interleavings + hooked index invariant", "E1+E2+E3", "DESIGN.md 7/C02")
+    "timed history monitor with interval oracle + sync-point injected sweeper interleavings + hooked index invariant (+ ThreadSanitizer workload in thorough)", "E1+E2+E3+E5", "DESIGN.md 7/C02")
 add("C05", "exploration",
     "pipelines of valid and invalid commands with unique ECHO sentinels under hundreds of segmentations (every split point for short pipelines, byte-at-a-time, random cuts, coalesced), independent RESP reader aligning replies to requests by index, model comparison of pure pipelines, malformed frames answered within a progress bound counted in event-loop iterations",
     "trusted: the independent RESP reader and the sentinel alignment; commands that legitimately produce 0 or many replies (SUBSCRIBE family, QUIT) are handled by their own rules",
@@ -67,7 +67,7 @@ add("C05", "exploration",
 add("C06", "exploration",
     "boundary enumeration (every catalogue command x argument position x numeric/byte boundary pool against keys of every type and size), frame fuzz (mutated pipelines, absurd lengths, nesting, floods, half frames), script resource probes; after every batch: child alive, PING on a new connection inside a generous watchdog, sentinel dataset intact; thorough repeats on a release-profile build (debug assertions off, overflow wraps)",
     "trusted: liveness is 'PING on a fresh connection answers within the watchdog' (watchdog expiry with a live idle process is re-checked, then reported); memory growth is bounded by RSS sampling only",
-    "crash/hang watchdog monitor over boundary enumeration and frame fuzzing (dev and release builds)", "E1+E5", "DESIGN.md 7/C06")
+    "crash/hang watchdog monitor over boundary enumeration, frame fuzzing, split delivery, blocked-key and connection-flood scenarios (dev, release and AddressSanitizer builds)", "E1+E5", "DESIGN.md 7/C06")
 add("C09", "exploration",
     "datasets over all six types in several databases with sizes around every length-encoding boundary, binary keys/values, special scores, TTLs; SAVE or BGSAVE, SIGKILL, restart on the same directory; canonical dumps compared, TTL deadlines within the measured brackets, keys dying during the downtime absent",
     "trusted: the canonical dump (type-specific full reads) as observation of the dataset; CLOCK_REALTIME/steady clock of one host",
@@ -75,7 +75,7 @@ add("C09", "exploration",
 add("C10", "fault_enumeration",
     "every step of a save (open, each write, flush, rename) enumerated with an injected I/O error (SAVE and BGSAVE) and a process abort; the previous dump must stay byte-identical / be what a restarted server loads, later saves must work, no temporary file may remain; the save thread is parked at sync points between per-key steps while clients replace/grow/empty/delete/expire/rename the key; free-running stress with uniquely versioned keys; loader on truncated/corrupt files in-process",
     "trusted: the hooked fault points wrap every I/O call of the save path (open, write_all calls, flush, rename); power-loss semantics below the file-system API (fsync ordering) are out of reach",
-    "fail-point / abort-point enumeration + sync-point interleavings + versioned-value snapshot consistency oracle", "E1+E3+E4", "DESIGN.md 7/C10")
+    "fail-point / abort-point / OS-level write-fault enumeration + sync-point interleavings + versioned-value snapshot consistency oracle (+ ThreadSanitizer workload in thorough)", "E1+E3+E4+E5", "DESIGN.md 7/C10")
 add("C11", "exploration",
     "appendonly child driven over the full write catalogue through direct, MULTI/EXEC, EVAL/EVALSHA, served blocking pop and fast-path blocking pop in several databases; at quiescent points the file is parsed as complete RESP arrays of bulk strings and replayed over TCP into a fresh child whose canonical dump must equal the live one (values, TTL presence)",
     "trusted: canonical dump; scripts with random outcomes are known findings (logged as scripts, not effects)",
@@ -83,7 +83,7 @@ add("C11", "exploration",
 add("C12", "exploration",
     "twin servers in lock-step: each generated command is sent directly to A and through redis.call / redis.pcall / KEYS / EVALSHA to B; reply_B must be the standard Lua round trip of reply_A and touched keys equal after every step; script semantics table (return shapes, error behaviour, all 256 byte values, 64 KB arguments); sandbox probes with a canary file; busy-loop scripts vs single-command readers for atomicity",
     "trusted: the conversion table of the harness (Redis EVAL documentation); conversions pinned by the existing suite are known findings",
-    "twin-server differential monitor + semantics table + atomicity observation with unique values", "E1", "DESIGN.md 7/C12")
+    "twin-server differential monitor + semantics table + atomicity observation with unique values (+ valgrind memcheck under a hostile script corpus in thorough)", "E1+E5", "DESIGN.md 7/C12")
 add("C13", "exploration",
     "stepwise scheduler: one action at a time (push, pop, single/multi-key BLPOP/BRPOP, finite timeouts, disconnect, DEL, transactions, scripts), wait for event-loop progress via VERIF LOOPCOUNT, compare VERIF BLOCKED and every socket with a model of who must hold which reply (FIFO per key, first non-empty key, no stranded client); free-running stress with schedule-independent oracles (conservation, exactly-once, timeout lower bound, final quiescence)",
     "trusted: the blocked-registry dump reflects the registry under its lock; finite-timeout expiries near an action are resolved by what the server did (either order accepted)",
@@ -91,7 +91,7 @@ add("C13", "exploration",
 add("C16", "exploration",
     "differential run of consumer-group histories (XGROUP CREATE/SETID/DESTROY/DELCONSUMER, XREADGROUP > / explicit IDs / NOACK / COUNT, XACK, XCLAIM with all options, XPENDING summary and extended forms, XDEL/XTRIM under pending entries) against a sequential model, with the PEL walker (group PEL == union of consumer PELs, delivery counts, last-delivered monotonic) every few commands",
     "trusted: reference model; idle times are compared as ranges from client-side brackets; forms Redis leaves unspecified are don't-cares (fv/DONTCARE.md)",
-    "reference-model differential monitor + hooked pending-list invariant walker", "E1+E2", "DESIGN.md 7/C16")
+    "reference-model differential monitor + hooked pending-list invariant walker (+ AddressSanitizer pass in thorough)", "E1+E2+E5", "DESIGN.md 7/C16")
 add("C20", "exploration",
     "in-process harness linked against the repo's own codec: round trip of random frame trees, chunking independence at every single split point / byte-at-a-time / random multi-splits, totality over all short strings of the protocol alphabet and mutated frames with a counting allocator (largest allocation <= 64 x received + 64 KB), absurd lengths and nesting in child processes; Miri on a subset in thorough",
     "trusted: the harness' own frame equality; the parser is exercised through the same entry points the connection uses",
